@@ -170,3 +170,36 @@ Section CAND2.
     map (fun cv => (fst cv, h' (fst cv) (snd cv))) (renl f d) = renl f (map (fun cv => (fst cv, h (fst cv) (snd cv))) d).
   Proof. intros H. unfold renl. rewrite !map_map. apply map_ext. intros [c x]. simpl. rewrite H. reflexivity. Qed.
 End CAND2.
+
+(* The hypothesis "f : C -> C injective" of the renaming theorems is no restriction with respect to "injective on the
+   candidates present": every function that is injective on a finite set S of candidates agrees on S with a globally
+   injective one (outside S: shift beyond every image of S). *)
+Section EXTEND.
+  Variable f : C -> C.
+  Variable S : list C.
+  Hypothesis f_inj_on : forall a b, In a S -> In b S -> f a = f b -> a = b.
+
+  Definition img_bound : positive := fold_right Pos.add 1%positive (map f S).
+  Definition extend (c : C) : C := if cmem c S then f c else (c + img_bound)%positive.
+
+  Lemma img_bound_gt c : In c S -> (f c < img_bound)%positive.
+  Proof.
+    unfold img_bound. clear f_inj_on. induction S as [|x l IH]; [intros []|]. cbn [map fold_right]. intros [->|H]; [lia|].
+    specialize (IH H). lia.
+  Qed.
+  Lemma cmem_In' c l : cmem c l = true <-> In c l.
+  Proof.
+    induction l as [|x l IH]; simpl; [split; [discriminate|tauto]|].
+    rewrite orb_true_iff, IH, ceqb_eq. split; intros [H|H]; auto.
+  Qed.
+  Lemma extend_agrees c : In c S -> extend c = f c.
+  Proof. intros H. unfold extend. apply cmem_In' in H. rewrite H. reflexivity. Qed.
+  Lemma extend_injective a b : extend a = extend b -> a = b.
+  Proof.
+    unfold extend. destruct (cmem a S) eqn:Ea, (cmem b S) eqn:Eb; intros H.
+    - apply f_inj_on; [apply cmem_In', Ea|apply cmem_In', Eb|exact H].
+    - apply cmem_In' in Ea. pose proof (img_bound_gt a Ea). lia.
+    - apply cmem_In' in Eb. pose proof (img_bound_gt b Eb). lia.
+    - lia.
+  Qed.
+End EXTEND.
